@@ -74,8 +74,8 @@ theorem sameFold_case {E' E : Env} (H : CaseEq E' E) (a p len : Nat) : sameFold 
   rcases H.cases (a + k) with ⟨h1, h2⟩ | ⟨x', x, h1, h2, hfx⟩
   · rw [h1, h2]
   · rcases H.cases (p + k) with ⟨g1, g2⟩ | ⟨y', y, g1, g2, hfy⟩
-    · rw [h1, h2, g1, g2]
-    · rw [h1, h2, g1, g2, H.lower, H.lowerFold x' x hfx, H.lowerFold y' y hfy]
+    · simp only [h1, h2, g1, g2]
+    · simp only [h1, h2, g1, g2, H.lower, H.lowerFold x' x hfx, H.lowerFold y' y hfy]
 
 /-- **the derivations of a case-closed expression are the same in both subjects** -/
 theorem derivs_case {E' E : Env} (H : CaseEq E' E) : ∀ r : Re, caseClosedRe r = true → derivs E' r = derivs E r := by
@@ -88,7 +88,7 @@ theorem derivs_case {E' E : Env} (H : CaseEq E' E) : ∀ r : Re, caseClosedRe r 
     simp only [derivs]
     rcases H.cases st.pos with ⟨h1, h2⟩ | ⟨a, b, h1, h2, hf⟩
     · rw [h1, h2]
-    · rw [h1, h2, mem_fold_eq S hr a b hf]
+    · simp only [h1, h2, mem_fold_eq S hr a b hf]
   | cat a b iha ihb =>
     intro hr; funext st
     simp only [caseClosedRe, Bool.and_eq_true] at hr
@@ -117,10 +117,9 @@ theorem derivs_case {E' E : Env} (H : CaseEq E' E) : ∀ r : Re, caseClosedRe r 
       · rw [h1, h2]
       · rw [h1, h2]
         have := fold_eq_10 a b hf
-        by_cases ha : a = 10
-        · have hb := this.mp ha; subst ha; subst hb; rfl
-        · have hb : ¬ b = 10 := fun e => ha (this.mpr e)
-          simp [ha, hb]
+        rw [Bool.eq_iff_iff]
+        simp only [beq_iff_eq, Option.some.injEq]
+        exact this
     rw [this]
   | wordB =>
     intro _; funext st
@@ -259,8 +258,8 @@ theorem relex_case_mapped (s : Array Cp) (ts ts' : List Tok) (hl : lex defaultCf
   obtain ⟨ts0, h0, hflat, _⟩ := lex_ok defaultCfg defaultRulesOK (by decide +kernel) s
   rw [hl] at h0; injection h0 with h0; subst h0
   have := lex_ascii_case_invariant s ((ts'.map (·.val)).flatten).toArray
-    (by simp only [List.toList_toArray]; rw [caseRel_text ts' ts hrel, hflat]) ts hl
+    (by rw [caseRel_text ts' ts hrel, hflat]) ts hl
   rw [this]
-  simp only [List.toList_toArray, caseRel_reslice ts' ts hrel]
+  simp only [caseRel_reslice ts' ts hrel]
 
 end Sql
